@@ -97,7 +97,7 @@ dPivotGrowth(int_t ncols, SuperMatrix *A, int_t *perm_c,
 		maxuj = SUPERLU_MAX( maxuj, fabs(Uval[i]) );
 	    
 	    /* Supernode */
-	    for (i = 0; i < nz_in_U; ++i)
+	    for (i = 0; i < nz_in_U && i < nsupr; ++i)
 		maxuj = SUPERLU_MAX( maxuj, fabs(luval[i]) );
 
 	    ++nz_in_U;
